@@ -94,6 +94,7 @@ func TestVerifC16(t *testing.T) {
 		clock := func() time.Time { reads++; return now.Add(time.Duration((reads - 1) * tick)) }
 		wildcard := r.Chance(30) // the ::/64 / ::/0 wildcard forms take the same countdown
 		var apply func() (int64, int64)
+		uneven := ""
 		if route {
 			p := &plugin.Route{
 				Prefix: netip.MustParsePrefix("2001:db8::/32"), Preference: ndp.Medium,
@@ -102,15 +103,23 @@ func TestVerifC16(t *testing.T) {
 			if wildcard {
 				p.Auto, p.Prefix = true, netip.MustParsePrefix("::/0")
 				p.Routes = func() ([]system.Route, error) {
-					return []system.Route{{Prefix: netip.MustParsePrefix("2001:db8:7::/48")}}, nil
+					return []system.Route{{Prefix: netip.MustParsePrefix("2001:db8:7::/48")}, {Prefix: netip.MustParsePrefix("2001:db8:9::/48")},
+						{Prefix: netip.MustParsePrefix("fd00:1::/32")}}, nil
 				}
 			}
 			apply = func() (int64, int64) {
 				ra := &ndp.RouterAdvertisement{}
-				if err := p.Apply(ra); err != nil || len(ra.Options) != 1 {
+				if err := p.Apply(ra); err != nil || len(ra.Options) == 0 {
 					t.Fatalf("route apply: %v %d", err, len(ra.Options))
 				}
-				return int64(ra.Options[0].(*ndp.RouteInformation).RouteLifetime), 0
+				first := ra.Options[0].(*ndp.RouteInformation).RouteLifetime
+				for _, o := range ra.Options[1:] {
+					// all options expanded from one stanza carry the same lifetime (one instant)
+					if lt := o.(*ndp.RouteInformation).RouteLifetime; lt != first {
+						uneven = fmt.Sprintf("route options of one RA carry different lifetimes: %s vs %s", first, lt)
+					}
+				}
+				return int64(first), 0
 			}
 		} else {
 			p := &plugin.Prefix{
@@ -121,15 +130,23 @@ func TestVerifC16(t *testing.T) {
 			if wildcard {
 				p.Auto, p.Prefix = true, netip.MustParsePrefix("::/64")
 				p.Addrs = func() ([]system.IP, error) {
-					return []system.IP{{Address: netip.MustParsePrefix("2001:db8:7::1/64")}}, nil
+					return []system.IP{{Address: netip.MustParsePrefix("2001:db8:7::1/64")}, {Address: netip.MustParsePrefix("2001:db8:9::1/64")},
+						{Address: netip.MustParsePrefix("fd00:1::1/64")}}, nil
 				}
 			}
 			apply = func() (int64, int64) {
 				ra := &ndp.RouterAdvertisement{}
-				if err := p.Apply(ra); err != nil || len(ra.Options) != 1 {
+				if err := p.Apply(ra); err != nil || len(ra.Options) == 0 {
 					t.Fatalf("prefix apply: %v %d", err, len(ra.Options))
 				}
 				pi := ra.Options[0].(*ndp.PrefixInformation)
+				for _, o := range ra.Options[1:] {
+					q := o.(*ndp.PrefixInformation)
+					if q.ValidLifetime != pi.ValidLifetime || q.PreferredLifetime != pi.PreferredLifetime {
+						uneven = fmt.Sprintf("prefix options of one RA carry different lifetimes: %s/%s vs %s/%s",
+							pi.ValidLifetime, pi.PreferredLifetime, q.ValidLifetime, q.PreferredLifetime)
+					}
+				}
 				return int64(pi.ValidLifetime), int64(pi.PreferredLifetime)
 			}
 		}
@@ -156,9 +173,10 @@ func TestVerifC16(t *testing.T) {
 			ID: id,
 			Coq: verifh.App("mkCase", verifh.B(route), verifh.B(dep), verifh.Z(epoch), verifh.Z(valid), verifh.Z(pref),
 				verifh.List(obs)),
-			Input:    map[string]any{"route": route, "deprecated": dep, "epoch_ns": epoch, "valid_ns": valid, "preferred_ns": pref, "clock_ns": nows},
-			Observed: obsJ,
-			Tags:     tags,
+			Input:         map[string]any{"route": route, "deprecated": dep, "epoch_ns": epoch, "valid_ns": valid, "preferred_ns": pref, "clock_ns": nows},
+			Observed:      obsJ,
+			Tags:          tags,
+			ImplViolation: uneven,
 		})
 	}
 }
